@@ -1235,7 +1235,7 @@ func c11ModulusNonZero(c *eng.Ctx, r *eng.Report) {
 // c11UnsignedSign: uint256.Int.Sign interprets the word as two's complement.
 func c11UnsignedSign(c *eng.Ctx, r *eng.Report) {
 	const rule = "R11.14"
-	r.Min(rule, 2)
+	r.Min(rule, 1)
 	n := 0
 	for _, fn := range c.PkgFuncs("vm") {
 		if c.IsTestFunc(fn) {
@@ -1271,7 +1271,7 @@ func c11UnsignedSign(c *eng.Ctx, r *eng.Report) {
 			}
 		}
 	}
-	r.Check(n >= 2, rule, "uint256-sign:sites", "", fmt.Sprintf("%d comparisons of uint256 Sign()", n), fmt.Sprintf("only %d comparisons of (*uint256.Int).Sign() found in package vm", n))
+	r.Check(n >= 1, rule, "uint256-sign:sites", "", fmt.Sprintf("%d comparisons of uint256 Sign()", n), fmt.Sprintf("only %d comparisons of (*uint256.Int).Sign() found in package vm", n))
 }
 
 // c11CodeHashOfCode: see R11.15.
